@@ -3,7 +3,8 @@
 import json, os, shutil, sys
 ID, k, caught, note = sys.argv[1], sys.argv[2], sys.argv[3], (sys.argv[4] if len(sys.argv) > 4 else '')
 src = '/tmp/mutwt/%s.out' % ID
-dst = '/verif/seeded/%s-m%s' % (ID, k)
+rnd = os.environ.get('ROUND', '')
+dst = '/verif/seeded/%s-%sm%s' % (ID, rnd, k)
 os.makedirs(dst, exist_ok=True)
 shutil.copy(os.path.join(src, 'm%s.diff' % k), os.path.join(dst, 'patch.diff'))
 shutil.copy(os.path.join(src, 'm%s_demo.py' % k), os.path.join(dst, 'demo.py'))
